@@ -434,6 +434,8 @@ def r3(ctx, rep):
     used_rev = set()
     sort_keys = []
     ctx._c11_sort_keys = sort_keys
+    # functions reviewed as "returns its elements in hash order, callers must not depend on it": every call is a hash source too
+    derived_sources = {row["returns_hash_order"] for row in rev.values() if row.get("returns_hash_order")}
     for fid, f in sorted(cg.fns.items()):
         if (f.get("macro") or "").startswith("#[derive"):
             continue
@@ -442,10 +444,16 @@ def r3(ctx, rep):
                 continue
             m = last_seg(r["def"])
             recv = (r.get("recv") or "")
-            if m not in ITER_SRC:
-                continue
-            if not ("std::collections::HashMap<" in recv or "std::collections::HashSet<" in recv):
-                continue
+            derived = r["def"] in derived_sources
+            if not derived:
+                if m not in ITER_SRC:
+                    continue
+                if not ("std::collections::HashMap<" in recv or "std::collections::HashSet<" in recv):
+                    continue
+            else:
+                if cg.owner_fn(fid)["path"] == r["def"]:
+                    continue   # the function's own recursion is part of its reviewed row
+                recv = "Vec in hash order returned by " + r["def"]
             if recv.startswith("std::vec::Vec<") or recv.startswith("&std::vec::Vec<") or recv.startswith("std::option::Option<"):
                 continue
             if (r.get("macro") or "").startswith("#[derive") or "/debug/" in r["file"]:
@@ -519,6 +527,12 @@ def r5(ctx, rep):
                     file=file, line=line, fn=owner)
 
 
+def r6(ctx, rep):
+    rep.rule("C11.R6", "identifiers that appear in output (source ids in spans) come from the one table built from the sources, not from an enumeration position", floor=1)
+    import C13
+    C13.source_id_reader(ctx, rep)
+
+
 def run(ctx, rep):
-    for r in (r1_r2, r3, r4, r5):
+    for r in (r1_r2, r3, r4, r5, r6):
         rep.guard(r, ctx)
